@@ -14,7 +14,7 @@ PROP = {
         # plane level: the real PlaneBuilder / check_meta_collisions / ServerBuilder::build and the server's route
         # table (Routes + register_introspection + find_route through the verif_hooks re-export of swimos_server_app)
         {"name": "plane-random", "crate": "store", "bin": "sv-c18p", "machine": "c18p", "features": [],
-         "cases": {"quick": 24000, "thorough": 800000}, "min_shard": 1500, "nontrivial_min_ops": 2},
+         "cases": {"quick": 12000, "thorough": 800000}, "min_shard": 1500, "nontrivial_min_ops": 2},
     ],
     "rule": "a case is one pattern pair with its parse/ambiguity/round-trip/match ops (or one row of the exhaustive "
             "character/byte tables), all generated from one SplitMix64 seed; distinct = distinct op sequence (sha1), "
@@ -32,9 +32,9 @@ PROP = {
                   "match is the only one; with introspection, a table accepted by build and "
                   "check_meta_collisions together with the node and lane meta-agent routes (texts and registration "
                   "order read from source) still matches every URI with at most one row, so no URI is claimed both by "
-                  "a user route and by one of those two meta routes (false for the third registered meta route, "
-                  "swimos:meta:mesh, which check_meta_collisions does not look at: F12d, known finding with witness "
-                  "and proved partial statement); every pattern accepted by the parser automaton satisfies the "
+                  "a user route and by a meta route; the same for the table the server really uses, user "
+                  "routes followed by the mesh, node and lane meta routes (F12d, mesh route unchecked, repaired by a "
+                  "fix: commit; its witness is a regression); every pattern accepted by the parser automaton satisfies the "
                   "structural side conditions. (F12, F12b, F12c repaired by fix: commits; their witnesses are regressions.) Tied "
                   "to the real RoutePattern/RouteUri by differential execution of parse_str, apply, unapply_str, "
                   "unapply_route_uri, are_ambiguous and RouteUri::from_str on generated patterns, maps, pattern "
